@@ -142,9 +142,12 @@ def apply_numpy_chunking(iterable_of_args: Iterable, iterable_len: Optional[int]
     """
     if iterable_len is not None:
         iterable_of_args = iterable_of_args[:iterable_len]
-    iterable_len = get_n_chunks(iterable_of_args, iterable_len, chunk_size, n_splits, n_jobs)
-    iterable_of_args = make_single_arguments(chunk_tasks(iterable_of_args, len(iterable_of_args), chunk_size,
-                                                         n_splits or (n_jobs * 4 if n_jobs is not None else None)))
+    # Materialize the chunks (numpy slices are views, so this is cheap) and announce the number of chunks actually
+    # produced. Deriving the count arithmetically can disagree with the chunker because of float rounding
+    chunks = list(chunk_tasks(iterable_of_args, len(iterable_of_args), chunk_size,
+                              n_splits or (n_jobs * 4 if n_jobs is not None else None)))
+    iterable_len = len(chunks)
+    iterable_of_args = make_single_arguments(chunks)
     chunk_size = 1
     n_splits = None
 
